@@ -26,7 +26,8 @@ RULE = ("job = seed -> history of <= 9 operations over one client and two "
         "connection carries the original suite/EMS/EtM/SNI/client identity; "
         "forged / altered / expired / foreign state => a full handshake "
         "completes.  distinct = digest(history); non-trivial = at least one "
-        "resumption attempt reached the server")
+        "resumption attempt reached the server"
+        ' Servers are long-lived (cache ring pre-aged by a drawn number of writes), may hold an external TLS 1.3 PSK next to the ticket keys (client offering both), and the operator may change the server cipher policy between connections.')
 LEVEL_TEXT = ("Seeded exploration of connection histories; simulated time "
               "covers hours to days per history at millisecond cost, which "
               "is what makes expiry, rotation and skew reachable.  The "
